@@ -5,7 +5,7 @@ CFG = {
         "level_note": "Trusted: Coq kernel + vm_compute; the hand model of pkg/time and segmentpb/modepb (validated by the correspondence only on generated inputs); integer magnitudes (exact float32), small durations (no int64 overflow), shapes ignored; Sum's pointwise law needs magnitudes >= 0 (refuted otherwise, theorem included); non-mutation of arguments is observed by deep copies, not proved.",
         "judge_module": "Timeline.C18Judge",
         "allowed_axioms": [],
-        "theorems": ["C18_compare_contract","C18_compare_antisym","C18_compare_trans","C18_intersect_iff_common_point","C18_connected_iff_touch","C18_intersect_symmetric","C18_connected_symmetric","C18_magnitude_at","C18_active_at","C18_duration","C18_max","C18_cut_preserves","C18_shift_is_translation","C18_sum_is_pointwise","C18_sum_negative_tail_refuted","C18_mode_magnitude_at","C18_mode_shift","C18_mode_shift_no_start","C18_mode_cut","C18_mode_sum","C18_mode_sum_no_start","C18_compare_v0_refuted","C18_compare_v0_wrong_order","C18_intersect_v0_refuted"],
+        "theorems": ["C18_compare_contract","C18_compare_antisym","C18_compare_trans","C18_intersect_iff_common_point","C18_connected_iff_touch","C18_intersect_symmetric","C18_connected_symmetric","C18_magnitude_at","C18_active_at","C18_duration","C18_max","C18_cut_preserves","C18_shift_is_translation","C18_sum_is_pointwise","C18_sum_negative_tail_refuted","C18_mode_magnitude_at","C18_mode_shift","C18_mode_shift_no_start","C18_mode_cut","C18_mode_sum","C18_mode_sum_no_start","C18_judge_sound","C18_compare_v0_refuted","C18_compare_v0_wrong_order","C18_intersect_v0_refuted"],
         "trusted_base": [
             "modelled, not verified: timestamppb/durationpb conversions (AsTime, AsDuration, New) as exact integer nanoseconds; float32 magnitudes restricted to integers below 2^24; time.Duration overflow not modelled (theorems are over Z, harness lengths are small)",
         ],
